@@ -8,6 +8,7 @@ from __future__ import annotations
 
 import itertools
 import os
+import sys
 
 from .. import cgit
 from ..core import HarnessError, h64, run_hypothesis
@@ -15,20 +16,31 @@ from ..model import c13_model as M
 
 PROPERTY = "C13"
 LEVEL = "exploration"
+NEEDS_RUST = False
+
+# C13 is about dulwich/graph.py, walk.py, repo.py, commit_graph.py (all Python).  Pin the pure-Python configuration
+# (DESIGN 1.4): otherwise the editable-install finder resolves dulwich._objects/_pack/_diff_tree to /repo's compiled
+# extension even when VERIF_REPO points at a scratch tree, mixing two trees (and a concurrent rebuild of those .so
+# files crashes every process that has them mapped).
+if "dulwich.objects" not in sys.modules:
+    for _m in ("dulwich._objects", "dulwich._pack", "dulwich._diff_tree"):
+        sys.modules[_m] = None
 RULE = (
-    "Part A/B (exhaustive): every DAG shape up to isomorphism on n<=5 commits (quick; thorough adds a seed-dependent "
-    "sample of n=6) x every weak ordering (ties included) of the commit timestamps; for n<=4 every query "
-    "(can_fast_forward on all ordered pairs, find_merge_base on all ordered pairs and all (a,{b,c}), find_octopus_base "
-    "on all ordered triples, independent on all subsets in both orders, walks from every include/exclude pair in both "
-    "orders, reversed and limited); for n=5 can_fast_forward on all a<b and find_merge_base on all unordered pairs "
-    "plus a hash-selected sample of the other queries.  Part C: Hypothesis-generated DAGs (linear, fork-merge, "
-    "criss-cross, octopus, multi-root; 2..40 commits quick, ..300 thorough) x clock modes {strict, monotone with ties, "
-    "all equal, reversed, random with ties, few outliers} x drawn query sets on an unmodified MemoryRepo.  Part D: the "
-    "same generator materialised as a disk Repo, every query also put to C git (merge-base --all/--octopus/"
-    "--is-ancestor/--independent, rev-list [--topo-order]) and repeated after a commit-graph was written by dulwich "
-    "or by git.  A query is non-trivial when the graph has a parent newer than its child, or has a merge and the "
-    "queried commits are not all comparable (walks: the graph has a merge or skew).  distinct = (graph, timestamps, "
-    "query); the exhaustive parts are disjoint by construction."
+    "Part A/B (exhaustive): every DAG shape up to isomorphism (1, 2, 6, 31, 302 shapes on 1..5 commits) x every weak "
+    "ordering (ties included; 1, 3, 13, 75, 541) of the commit timestamps.  n<=4 (both tiers) and n=5 (thorough): every "
+    "query - can_fast_forward on all ordered pairs, find_merge_base on all ordered pairs and all (a,{b,c}), (a,{b,c,d}), "
+    "find_octopus_base on all ordered triples and quadruples, independent on all subsets in both orders, walks from "
+    "every include / include-pair / exclude combination in both orders, reversed, limited, since/until at every "
+    "timestamp (n=5: walks on every 4th graph).  n=5 quick: a seed-dependent half of the shape x ordering pairs with can_fast_forward on all a<b, "
+    "find_merge_base on a third of the pairs and hash-selected other queries; n=6 thorough: a seed-dependent 1/24 sample.  "
+    "Part C: Hypothesis-generated DAGs (linear, fork-merge, criss-cross, octopus, multi-root, wide; 2..40 commits quick, "
+    "..300 thorough) x clock modes {strict, monotone with ties, all equal, reversed, random with ties, random distinct, "
+    "few outliers} x drawn query sets on an unmodified MemoryRepo.  Part D: the same generator materialised as a disk "
+    "Repo, every query also put to C git (merge-base --all/--octopus/--is-ancestor/--independent, rev-list "
+    "[--topo-order] [--reverse] inc ^exc) and repeated after a commit-graph was written by dulwich or by git.  A query "
+    "is non-trivial when the graph has a parent newer than its child, or has a merge and the queried commits are not "
+    "all comparable (walks: the graph has a merge or skew).  distinct = (graph, timestamps, query); the exhaustive "
+    "parts are disjoint by construction (counted in bulk), generated cases are counted by hash."
 )
 ASSUMPTIONS = [
     "the brute-force ancestor-set model (self-tested on hand-computed graphs, OEIS A003087 shape counts, Fubini numbers, "
@@ -41,6 +53,7 @@ ASSUMPTIONS = [
     "walker `paths`/`follow`, grafts and shallow boundaries are not exercised",
     "the exhaustive parts use a MemoryObjectStore subclass that returns stored commits without copying (speed); "
     "parts C/D use unmodified MemoryRepo / Repo",
+    "runs in the pure-Python configuration (dulwich._objects/_pack/_diff_tree disabled); the Rust twins are C15's subject",
 ]
 
 T0 = 1_000_000_000
@@ -625,7 +638,8 @@ def _graph_queries_full(n):
     for k in range(2, n + 1):
         for s in itertools.combinations(range(n), k):
             qs.append(("ind", s))
-            qs.append(("ind", s[::-1]))
+            if k <= 3 or n <= 4:
+                qs.append(("ind", s[::-1]))
     qs.append(("mb", (n - 1,)))
     qs.append(("ind", (0,)))
     return qs
@@ -1109,7 +1123,9 @@ def run(ctx):
     selftest(ctx)
     ctx.note("git_version", cgit.version())
     ctx.note("exhaustive", True)
-    ctx.note("exhaustive_max_commits", 5)
+    ctx.note("exhaustive_max_commits", ctx.scale(4, 5))
+    if not ctx.thorough:
+        ctx.note("n5_sample_fraction", "1/2 of shape x ordering (seed-dependent); can_fast_forward on all a<b, sampled other queries")
     ns = 16
     # n <= 4: everything; n = 5: core pairs on every graph x ordering, walks on a slice
     for n in (1, 2, 3, 4):
@@ -1124,12 +1140,12 @@ def run(ctx):
 
     timed("exhaustive_n<=4", _part_exhaustive, [(n, "full", "full", 1, ns, k) for n in (1, 2, 3, 4) for k in range(ns)])
     if ctx.thorough:
-        timed("exhaustive_n=5", _part_exhaustive, [(5, "full", "full", 1, ns * 4, k) for k in range(ns * 4)])
+        timed("exhaustive_n=5", _part_exhaustive, [(5, "full", (4, "full"), 1, ns * 4, k) for k in range(ns * 4)])
         M.shapes(6), M.orderings(6)
         ctx.note("n6_sample_fraction", "1/24 of shape x ordering (seed-dependent), sampled queries")
         timed("sampled_n=6", _part_exhaustive, [(6, (3, 1), (4, 8), 24, ns * 4, k) for k in range(ns * 4)])
     else:
-        timed("exhaustive_n=5", _part_exhaustive, [(5, (0.5, 3), (16, 10), 1, ns * 4, k) for k in range(ns * 4)])
+        timed("exhaustive_n=5", _part_exhaustive, [(5, (0.5, 3), (16, 10), 2, ns * 4, k) for k in range(ns * 4)])
     timed("dups", _part_dups, [0])
     timed("generated_memory", _part_generated, [(ctx.scale(150, 3000), ctx.scale(40, 300), False)] * 16)
     timed("generated_disk_git", _part_generated, [(ctx.scale(40, 1200), ctx.scale(24, 60), True)] * 16)
